@@ -34,7 +34,7 @@ Proof.
   - inversion H; subst. auto.
   - set (in_node := filter (fun i => cnode (find_cpu (o_topo o) i) =? fst e)
                            (filter (fun i => memZ i (map cid (o_topo o))) avail)) in *.
-    destruct (take_preferred (cfg_of o rq) in_node [] allocated
+    destruct (take_preferred (cfg_of o rq) in_node (r_pref rq) allocated
                 (Z.min (lenZ in_node) (fst (snd e) / 1000)) (r_bind rq)) as [cpus|] eqn:E; [|discriminate].
     destruct (take_preferred_spec (cfg_of o rq) _ _ _ _ _ _ HT E) as [H1 [H2 _]].
     apply (IH _ _ HT H).
@@ -44,18 +44,19 @@ Proof.
       apply filter_In in Hx. tauto.
 Qed.
 
-Definition avail_of (o : nopts) (st : lstate) : list Z :=
-  fst (available (o_topo o) (o_maxref o) (o_reserved o) (l_cpus st) []).
+(* what getAvailableCPUs returns for this request (with its give-back sets) *)
+Definition avail_of (o : nopts) (st : lstate) (rq : areq) : list Z :=
+  fst (available (o_topo o) (o_maxref o) (o_reserved o) (l_cpus st) (givebacks rq)).
 
 Lemma allocate_cpuset_spec o st rq numa s :
   NoDup (map cid (o_topo o)) ->
   allocate_cpuset o st rq numa = Some s ->
-  NoDup s /\ incl s (avail_of o st)
+  NoDup s /\ incl s (avail_of o st rq)
   /\ lenZ s = Z.max 0 (r_n rq)
   /\ (r_required rq = true -> satisfied_policy (r_bind rq) (o_topo o) s = true).
 Proof.
   intros HT H. unfold allocate_cpuset in H. unfold avail_of.
-  destruct (available (o_topo o) (o_maxref o) (o_reserved o) (l_cpus st) []) as [avail0 allocated] eqn:Ea.
+  destruct (available (o_topo o) (o_maxref o) (o_reserved o) (l_cpus st) (givebacks rq)) as [avail0 allocated] eqn:Ea.
   cbn [fst].
   set (avail := if r_required rq then filter_by_policy (r_bind rq) (o_topo o) avail0 else avail0) in *.
   assert (Hav : incl avail avail0).
@@ -90,7 +91,7 @@ Proof.
   (* the remaining CPUs *)
   assert (Hfinal : forall r,
             (if 0 <? n'
-             then match take_preferred (cfg_of o rq) (filter (fun i => negb (memZ i result)) avail) []
+             then match take_preferred (cfg_of o rq) (filter (fun i => negb (memZ i result)) avail) (r_pref rq)
                                        allocated n' (r_bind rq) with
                   | Some cpus => Some (set_union result cpus)
                   | None => None
@@ -100,7 +101,7 @@ Proof.
   { intros r Hr. destruct (0 <? n') eqn:En.
     - apply Z.ltb_lt in En.
       destruct R3 as [[N1 [N2 N3]]|[N1 [N2 N3]]]; [|lia]. subst result n'.
-      destruct (take_preferred (cfg_of o rq) (filter (fun i => negb (memZ i [])) avail) [] allocated (r_n rq) (r_bind rq))
+      destruct (take_preferred (cfg_of o rq) (filter (fun i => negb (memZ i [])) avail) (r_pref rq) allocated (r_n rq) (r_bind rq))
         as [cpus|] eqn:E; [|discriminate].
       inversion Hr; subst r.
       destruct (take_preferred_spec (cfg_of o rq) _ _ _ _ _ _ HT E) as [H1 [H2 [_ H4]]].
@@ -111,7 +112,7 @@ Proof.
       + subst. cbn. splits; auto; try lia.
       + pose proof (lenZ_nonneg result). splits; auto; try lia. }
   destruct (if 0 <? n'
-            then match take_preferred (cfg_of o rq) (filter (fun i => negb (memZ i result)) avail) []
+            then match take_preferred (cfg_of o rq) (filter (fun i => negb (memZ i result)) avail) (r_pref rq)
                                       allocated n' (r_bind rq) with
                  | Some cpus => Some (set_union result cpus)
                  | None => None
@@ -327,7 +328,7 @@ Qed.
 Lemma allocate_wf o st rq p :
   NoDup (map cid (o_topo o)) ->
   match r_hint rq with Some h => NoDup h | None => True end ->
-  allocate o st rq = Some p -> palloc_wf p /\ incl (p_cpus p) (avail_of o st).
+  allocate o st rq = Some p -> palloc_wf p /\ incl (p_cpus p) (avail_of o st rq).
 Proof.
   intros HT Hh H. destruct (allocate_spec o st rq p Hh H) as [_ [A2 [_ [A4 A5]]]].
   destruct (r_bindreq rq).
@@ -346,10 +347,17 @@ Definition op_wf (x : op) : Prop :=
   | OAlloc rq => match r_hint rq with Some h => NoDup h | None => True end
   | ORelease _ => True
   | OUpdate p => palloc_wf p
+  | OAllocR rq _ _ => match r_hint rq with Some h => NoDup h | None => True end
   end.
-(* a history of scheduling decisions only: no allocation restored from outside *)
+(* a history of plain scheduling decisions only: no allocation restored from outside and no
+   CPUs given back (for those see ghist_limit) *)
 Definition op_sched (x : op) : Prop :=
-  match x with OUpdate _ => False | _ => op_wf x end.
+  match x with
+  | OUpdate _ => False
+  | OAllocR _ _ _ => False
+  | OAlloc rq => op_wf x /\ r_pref rq = [] /\ r_preempt rq = []
+  | ORelease _ => True
+  end.
 
 Lemma run_fold (P : lstate -> Prop) (Q : op -> Prop) o :
   (forall st x, Q x -> P st -> P (fst (step o st x))) ->
@@ -361,11 +369,14 @@ Qed.
 
 Lemma step_linv o st x : wf_opts o -> op_wf x -> linv st -> linv (fst (step o st x)).
 Proof.
-  intros [HT _] Hx Hinv. destruct x as [rq|uid|p]; cbn [step].
+  intros [HT _] Hx Hinv. destruct x as [rq|uid|p|rq host victim]; cbn [step].
   - destruct (allocate o st rq) as [p|] eqn:E; cbn [fst]; [|exact Hinv].
     apply update_inv; [exact Hinv|]. apply (allocate_wf o st rq p HT Hx E).
   - cbn [fst]. apply release_inv. exact Hinv.
   - cbn [fst]. apply update_inv; assumption.
+  - destruct (allocate o st rq) as [p|] eqn:E; cbn [fst]; [|exact Hinv].
+    apply update_inv; [|apply (allocate_wf o st rq p HT Hx E)].
+    destruct victim; cbn [release_opt]; [apply release_inv|]; exact Hinv.
 Qed.
 
 Lemma hist_linv o ops : wf_opts o -> Forall op_wf ops -> linv (run o ops).
@@ -385,10 +396,12 @@ Proof.
     apply Z.eqb_eq in E. exfalso. apply Hb. rewrite E. apply in_map. exact Ha.
 Qed.
 
-Lemma avail_ref_lt o st i :
-  1 <= o_maxref o -> cs_wf (l_cpus st) -> In i (avail_of o st) -> ref_in (l_cpus st) i < o_maxref o.
+Lemma avail_ref_lt o st rq i :
+  r_pref rq = [] -> r_preempt rq = [] ->
+  1 <= o_maxref o -> cs_wf (l_cpus st) -> In i (avail_of o st rq) -> ref_in (l_cpus st) i < o_maxref o.
 Proof.
-  intros Hm [Hnd Hpos] Hi. unfold avail_of, available in Hi. cbn [fold_left fst] in Hi.
+  intros E1 E2 Hm [Hnd Hpos] Hi. unfold avail_of, available, givebacks in Hi. rewrite E1, E2 in Hi.
+  cbn [fold_left fst] in Hi.
   apply filter_In in Hi. destruct Hi as [_ Hi]. apply andb_true_iff in Hi. destruct Hi as [Hi _].
   apply negb_true_iff in Hi. apply memZ_false in Hi.
   destruct (has_id i (l_cpus st)) eqn:E.
@@ -413,14 +426,15 @@ Proof.
   intros Ho Hx [Hinv Hlim].
   assert (Hwf : op_wf x) by (destruct x; cbn in *; tauto).
   split; [apply step_linv; assumption|].
-  destruct Ho as [HT Hm]. destruct x as [rq|uid|p]; cbn [step]; [| |destruct Hx].
-  - destruct (allocate o st rq) as [p|] eqn:E; cbn [fst]; [|exact Hlim].
+  destruct Ho as [HT Hm]. destruct x as [rq|uid|p|rq host victim]; cbn [step]; [| |destruct Hx|destruct Hx].
+  - destruct Hx as [_ [Ep1 Ep2]].
+    destruct (allocate o st rq) as [p|] eqn:E; cbn [fst]; [|exact Hlim].
     destruct (allocate_wf o st rq p HT Hwf E) as [_ Hinc].
     destruct Hinv as [Hcs [_ [_ [Hcpu _]]]].
     intros i. rewrite update_pods, ref_of_pods_app.
     pose proof (ref_of_pods_filter_le (fun q => negb (p_uid q =? p_uid p)) (l_pods st) i) as Hle.
     destruct (memZ i (p_cpus p)) eqn:Em.
-    + apply memZ_In in Em. pose proof (avail_ref_lt o st i Hm Hcs (Hinc i Em)) as Hlt.
+    + apply memZ_In in Em. pose proof (avail_ref_lt o st rq i Ep1 Ep2 Hm Hcs (Hinc i Em)) as Hlt.
       rewrite Hcpu in Hlt. lia.
     + specialize (Hlim i). lia.
   - cbn [fst]. intros i. rewrite release_pods.
@@ -457,7 +471,7 @@ Proof.
   intros Ho Hx [Hinv Hcap].
   assert (Hwf : op_wf x) by (destruct x; cbn in *; tauto).
   split; [apply step_linv; assumption|].
-  destruct Ho as [HT Hm]. destruct x as [rq|uid|p]; cbn [step]; [| |destruct Hx].
+  destruct Ho as [HT Hm]. destruct x as [rq|uid|p|rq host victim]; cbn [step]; [| |destruct Hx|destruct Hx].
   - destruct (allocate o st rq) as [p|] eqn:E; cbn [fst]; [|exact Hcap].
     destruct (allocate_spec o st rq p Hwf E) as [_ [_ [A3 _]]].
     destruct Hinv as [_ [_ [Hpw [_ Hnuma]]]].
@@ -504,8 +518,8 @@ Lemma ex_opts_wf : wf_opts (mkO overshoot_topo 1 [] true [(0, (8000, 64)); (1, (
 Proof. split; [exact overshoot_topo_nodup|cbn; lia]. Qed.
 
 Lemma ex_hist_sched :
-  Forall op_sched [OAlloc (mkR 1 4 true 1 false 0 (Some [0; 1]) 4000 8); ORelease 1;
-                   OAlloc (mkR 2 2 true 2 true 1 None 2000 0)].
+  Forall op_sched [OAlloc (mkR 1 4 true 1 false 0 (Some [0; 1]) 4000 8 [] []); ORelease 1;
+                   OAlloc (mkR 2 2 true 2 true 1 None 2000 0 [] [])].
 Proof.
   repeat constructor; cbn; auto; try (intros [H|[]]; discriminate); try (intros []).
 Qed.
